@@ -44,6 +44,10 @@ struct Scenario {
     seed: u64,
     /// path trace option (and TLV forwarding through the daemon's forwarder) on every node
     path_trace: bool,
+    /// host timers (port timers and the BMCA timer) fire up to this many thousandths of an announce interval late
+    /// and are re-armed from the moment they fired, as on a real host: periods of equal length then drift against
+    /// each other (0 = exact timers)
+    timer_late_pm: u64,
 }
 
 fn ident(i: usize) -> [u8; 8] {
@@ -175,7 +179,7 @@ fn gen_scenario(t: &mut Tape, max_nodes: usize) -> Scenario {
             }
         }
     };
-    Scenario { ann_log: t.range(-2, 1) as i8, receipt_timeout: *t.pick(&[3u8, 2, 4]), nodes, segments, delay_ns: t.urange(1_000, 400_000), jitter_ns: t.below(20_000), fault, seed: t.below(1 << 30), path_trace: t.chance(1, 3) }
+    Scenario { ann_log: t.range(-2, 1) as i8, receipt_timeout: *t.pick(&[3u8, 2, 4]), nodes, segments, delay_ns: t.urange(1_000, 400_000), jitter_ns: t.below(20_000), fault, seed: t.below(1 << 30), path_trace: t.chance(1, 3), timer_late_pm: if t.chance(1, 2) { 0 } else { *t.pick(&[2u64, 10, 30, 80]) } }
 }
 
 #[derive(PartialEq, Eq, PartialOrd, Ord)]
@@ -246,6 +250,17 @@ impl Sim {
         }
         sim
     }
+    fn lateness(&self, who: u64, t: u64) -> u64 {
+        if self.sc.timer_late_pm == 0 {
+            return 0;
+        }
+        let max = self.interval * self.sc.timer_late_pm / 1000;
+        let mut x = t ^ (who.wrapping_mul(0x9e3779b97f4a7c15)) ^ self.sc.seed;
+        x ^= x >> 33;
+        x = x.wrapping_mul(0xff51afd7ed558ccd);
+        x ^= x >> 33;
+        x % (max + 1)
+    }
     fn rnd(&mut self) -> u64 {
         // xorshift: deterministic function of the scenario seed (drawn by the generator)
         let mut x = self.rng;
@@ -314,6 +329,8 @@ impl Sim {
                     continue;
                 }
                 if let Some((t, _, _)) = nd.next_timer() {
+                    // lateness of this firing: a deterministic function of (node, deadline)
+                    let t = t + self.lateness(i as u64, t);
                     if t < tt {
                         tt = t;
                         tn = i;
@@ -340,7 +357,9 @@ impl Sim {
                 let n = e.node;
                 if e.kind == 1 {
                     let period = self.nodes[n].bmca_interval_ns();
-                    self.push(e.t.0 + period, 1, n, 0, 0);
+                    // re-armed from the moment it ran, plus the lateness of the next firing
+                    let late = self.lateness(1000 + n as u64, e.t.0);
+                    self.push(e.t.0 + period + late, 1, n, 0, 0);
                     if self.silenced.contains(&n) {
                         continue;
                     }
@@ -676,7 +695,7 @@ pub fn case_with(t: &mut Tape, max_nodes: usize) -> CaseOut {
     let sc = gen_scenario(t, max_nodes);
     let rendered = json!({"announce_log": sc.ann_log, "receipt_timeout": sc.receipt_timeout, "delay_ns": sc.delay_ns, "jitter_ns": sc.jitter_ns,
         "nodes": sc.nodes.iter().map(|n| format!("p1={} class={} acc={:x} var={:x} p2={} slave_only={} ports={} phase={}", n.p1, n.class, n.acc, n.var, n.p2, n.slave_only, n.nports, n.bmca_phase_pm)).collect::<Vec<_>>(),
-        "segments": format!("{:?}", sc.segments), "fault": format!("{:?}", sc.fault), "path_trace": sc.path_trace});
+        "segments": format!("{:?}", sc.segments), "fault": format!("{:?}", sc.fault), "path_trace": sc.path_trace, "timer_lateness_permille": sc.timer_late_pm});
     out.render = rendered.clone();
     let n = sc.nodes.len();
     let shared = sc.segments.iter().any(|s| s.len() > 2);
@@ -750,6 +769,9 @@ pub fn case_with(t: &mut Tape, max_nodes: usize) -> CaseOut {
     if sim.sc.path_trace {
         out.label("path-trace-on");
     }
+    if sim.sc.timer_late_pm > 0 {
+        out.label("late-timers");
+    }
     if same_inst {
         out.label("same-instance-segment");
     }
@@ -785,7 +807,7 @@ pub fn run(ctx: &Ctx) -> i32 {
         Finish {
             ctx,
             level: "exploration",
-            rule: "networks of 2-4 (thorough 2-7) real PtpInstances with 1-3 ports on segments (point-to-point links, shared segments of up to 4 endpoints, rings, two ports of one instance on one segment), built constructively so that they are connected; per node priority1/clockClass (6,7,127,128,248,255)/accuracy/variance/priority2 from small domains, distinct identities, slave-only on some nodes; one announce interval per network (log -2..1), receipt timeout 2..4; path trace + TLV forwarding on all nodes in a third of the networks; per delivery a delay of 1..400 us plus jitter up to 20 us; per node a BMCA phase; event ties broken by a generated seed; after convergence one fault (cut one endpoint, cut and restore, silence a node, change a node's quality, toggle slave-only). Predicates G/T/S of DESIGN.md C01 evaluated every half interval until they hold (bound (2*timeout+7)*(D+2) announce intervals) and then at every BMCA of every node over 12 intervals together with constancy of all port states and data sets (no flap). Part daemon: networks of 2-3 (thorough 2-4) real statime daemons in a private network namespace - every segment a Linux bridge, every port a veth pair, trees of point-to-point and shared segments, generated priority1 ranking (or all equal: the identity decides), path trace on/off, PTP over Ethernet, announce interval 125 ms; after convergence one fault (kill the grandmaster or another daemon, cut an endpoint out of its bridge, cut and restore); the same predicates evaluated on what the daemons publish on their observation sockets, polled every 60 ms, within the in-process bound x 1.5 in real time (+1.5 s process start), then 12 intervals without any change. Non-trivial = >= 3 instances and (a boundary clock or a shared segment); distinct by scenario.",
+            rule: "networks of 2-4 (thorough 2-7) real PtpInstances with 1-3 ports on segments (point-to-point links, shared segments of up to 4 endpoints, rings, two ports of one instance on one segment), built constructively so that they are connected; per node priority1/clockClass (6,7,127,128,248,255)/accuracy/variance/priority2 from small domains, distinct identities, slave-only on some nodes; one announce interval per network (log -2..1), receipt timeout 2..4; path trace + TLV forwarding on all nodes in a third of the networks; per delivery a delay of 1..400 us plus jitter up to 20 us; per node a BMCA phase; in half of the networks host timers (port timers and the BMCA timer) fire up to 0.2-8 % of an announce interval late and are re-armed from the moment they fired, so that equal periods drift against each other as on a real host; event ties broken by a generated seed; after convergence one fault (cut one endpoint, cut and restore, silence a node, change a node's quality, toggle slave-only). Predicates G/T/S of DESIGN.md C01 evaluated every half interval until they hold (bound (2*timeout+7)*(D+2) announce intervals) and then at every BMCA of every node over 12 intervals together with constancy of all port states and data sets (no flap). Part daemon: networks of 2-3 (thorough 2-4) real statime daemons in a private network namespace - every segment a Linux bridge, every port a veth pair, trees of point-to-point and shared segments, generated priority1 ranking (or all equal: the identity decides), path trace on/off, PTP over Ethernet, announce interval 125 ms; after convergence one fault (kill the grandmaster or another daemon, cut an endpoint out of its bridge, cut and restore); the same predicates evaluated on what the daemons publish on their observation sockets, polled every 60 ms, within the in-process bound x 1.5 in real time (+1.5 s process start), then 12 intervals without any change. Non-trivial = >= 3 instances and (a boundary clock or a shared segment); distinct by scenario.",
             assumptions: vec!["servo irrelevant here: recording filter, ideal clocks".into(), "master_only ports are left to C08".into(), "liveness checked as bounded-horizon safety".into()],
             min_nontrivial: 50,
         },
